@@ -71,17 +71,18 @@ def nthFault (i : Nat) : String := traverseRaises.getD i "?"
 /-- name resolution of `traverse`: the method object, or the name of the fault raised -/
 def resolve {μ : Type} (tbl : Table μ) (method : Name) : Except String μ :=
   let parts := splitDot method
-  if traverse_g0 parts false false false then .error (nthFault 0)
+  if traverse_g0 parts false none none false then .error (nthFault 0)
   else match parts with
     | [ns, m] =>
-      if traverse_g1 parts (m.head? == some '_') false false then .error (nthFault 1)
+      if traverse_g1 parts (m.head? == some '_') none none false then .error (nthFault 1)
       else match tbl ns with
-        | none => if traverse_g2 parts false false false then .error (nthFault 2) else .error "?"
+        | none => if traverse_g2 parts false none none false then .error (nthFault 2) else .error "?"
         | some attrs =>
-          if traverse_g2 parts false true false then .error (nthFault 2)
+          if traverse_g2 parts false (some ()) none false then .error (nthFault 2)
           else match attrs m with
-            | .boundMethod f => if traverse_g3 parts false true true then .error (nthFault 3) else .ok f
-            | _ => if traverse_g3 parts false true false then .error (nthFault 3) else .error "?"
+            | .boundMethod f => if traverse_g3 parts false (some ()) (some ()) true then .error (nthFault 3) else .ok f
+            | .other => if traverse_g3 parts false (some ()) (some ()) false then .error (nthFault 3) else .error "?"
+            | .absent => if traverse_g3 parts false (some ()) none false then .error (nthFault 3) else .error "?"
     | _ => .error "?"
 
 /-- a bound method: how many positional arguments it accepts, and its body -/
